@@ -151,13 +151,13 @@ class _Run:
         self.lost_sessions = 0
         self.watch: set = set()                        # (auto) names the server was asked to watch in this connection
         self.dead_wait: set = set()                    # (auto) names whose AddUser never reached a server
-        self._truth_prev = {n: False for n in NAMES}
+        self._truth_prev = {n: (False, False, False) for n in NAMES}
         for u in case.get('friends0', []):             # the model starts from an empty friends list
             self.lines.append(f'friend {u} 1')
             self.obs.append(self.observe())
 
     def _new_epoch(self):
-        return {'calls': {}, 'attempts': {}, 'outcomes': {}, 'events': {}, 'log': {},
+        return {'calls': {}, 'attempts': {}, 'outcomes': {}, 'events': {}, 'log': {}, 'lenient': False,
                 'ups': {n: 0 for n in NAMES}, 'downs': {n: 0 for n in NAMES}}
 
     def now(self) -> int:
@@ -179,6 +179,14 @@ class _Run:
         """a request the reference expects (an application call made now, or what an owner can see now)"""
         if name in NAMES:
             self.ep['calls'].setdefault(name, []).append((self.now(), add, flag))
+
+    def owner_step(self):
+        """an owner of a reason looks. Without a session there is no server to mirror anything on: whether an owner
+        records its reason then, or only when the next session begins, is its own business — from here to the end of
+        this connection period the exact fold of requests is no reference any more (the observable reasons, the wire
+        and the state still are: `_monitor_truth`)"""
+        if self.session is None:
+            self.ep['lenient'] = True
 
     async def park(self, user: str, kind: str):
         fut = self.loop.create_future()
@@ -210,13 +218,17 @@ class _Run:
                 for n in NAMES}
 
     def sample_truth(self):
-        """count the empty <-> non-empty edges of the observable reasons (bounds the requests of a free-running case)"""
+        """count, per observable reason, how often it appeared and disappeared in this connection period: the library
+        holds a reason only after its owner has looked, so the set it holds can pass through "empty" while the observable
+        set does not (and the other way round) — but every AddUser needs some reason to appear, every RemoveUser some
+        reason to disappear (bounds the requests of a free-running case)"""
         for n, t in self.truth().items():
-            cur = t['req'] or t['unf'] or (t['fr'] and self.session is not None)
-            if cur and not self._truth_prev[n]:
-                self.ep['ups'][n] += 1
-            elif self._truth_prev[n] and not cur:
-                self.ep['downs'][n] += 1
+            cur = (t['req'], t['unf'], t['fr'] and self.session is not None)
+            for was, now in zip(self._truth_prev[n], cur):
+                if now and not was:
+                    self.ep['ups'][n] += 1
+                elif was and not now:
+                    self.ep['downs'][n] += 1
             self._truth_prev[n] = cur
 
     async def on_transfer_state_changed(self, transfer, old, new):      # TransferStateListener of every transfer
@@ -248,7 +260,7 @@ class _Run:
                             and (self.gates.get(k) or self.ep['attempts'].get(k))),
             'truth': self.truth(), 'session': self.session is not None, 'online': self.online,
             'tr_clean': self.tr_clean, 'app_bits': self.app_bits, 'watch': sorted(self.watch),
-            'lost_sessions': self.lost_sessions,
+            'lost_sessions': self.lost_sessions, 'lenient': self.ep['lenient'],
         })
 
     # -- ops -------------------------------------------------------------------------------------
@@ -302,8 +314,12 @@ class _Run:
                 if gs:
                     if gs[0][0] == 'A' and so == 'fail':
                         self.outcome(name, 'sendfail')
-                    if so == 'ok':
-                        (self.watch.add if gs[0][0] == 'A' else self.watch.discard)(name)
+                    # what the server watches in this connection. A RemoveUser whose write fails is not repeated (the code
+                    # only logs it: a failed write ends the connection, and with it everything the server watched)
+                    if gs[0][0] == 'R':
+                        self.watch.discard(name)
+                    elif so == 'ok':
+                        self.watch.add(name)
                     gs[0][1].set_result(so == 'ok')
                 else:
                     pre = 'refused '
@@ -335,6 +351,8 @@ class _Run:
             self.lines.append(f'friend {u} {1 if b else 0}')
             changed = bool(b) != self.is_friend(name)
             (self.settings.users.friends.add if b else self.settings.users.friends.discard)(name)
+            if changed:
+                self.owner_step()
             if changed and self.session is not None:
                 self.ref_call(name, bool(b), F_FR)
             if self.auto:
@@ -379,6 +397,7 @@ class _Run:
                 self.xfers[k] = None
                 self.tr_clean = False
                 if not any(x.username == t.username for x in self.mgr.transfers):
+                    self.owner_step()
                     self.ref_call(t.username, False, F_TR)       # nobody else can withdraw the reason of this user
             await self.after(m)
         elif kind == 'cycle':
@@ -386,6 +405,7 @@ class _Run:
             if self.auto:
                 raise ValueError('`cycle` in a free-running case')
             self.lines.append(f'cycle {m}')
+            self.owner_step()
             for n in NAMES:                                      # what the owner can see at this instant
                 if self.has_unfinished(n):
                     self.ref_call(n, True, F_TR)
@@ -455,7 +475,7 @@ class _Run:
         self.checkpoint(True, after_close=True)
         self.epochs.append(self.ep)
         self.ep = self._new_epoch()
-        self._truth_prev = {n: False for n in NAMES}
+        self._truth_prev = {n: (False, False, False) for n in NAMES}
         self.sample_truth()
         self.obs.append(self.observe())
 
@@ -691,28 +711,38 @@ def _why(n: str, cp: dict) -> str:
 
 def _monitor_truth(case: dict, res: dict, flag):
     """the reasons as they can be observed from outside (friends list in the settings, unfinished transfers, explicit
-    requests still standing) against what the library reports and what it asked the server for"""
+    requests still standing) against what the library reports and what it asked the server for. Only in a session is
+    there anything to mirror: without one, only the application's own REQUESTED is compared."""
     epochs = res['epochs']
     for cp in res['checkpoints']:
-        if cp['after_close'] or cp['epoch'] >= len(epochs):
+        if cp['after_close'] or cp['epoch'] >= len(epochs) or not res['world']:
             continue
         if not (cp['settled'] and (cp['quiesced'] or not res['auto'])):
             continue
+        if cp['app_bits'] & (F_TR | F_FR):
+            continue            # the application named an owner's reason itself: the observable reasons do not say
+        ep = epochs[cp['epoch']]
         for n in NAMES:
             u = cp['users'][n]
             if u['gates']:
                 continue
             where = f'user {n} after op #{cp["op"]}'
-            exp = _bits(cp['truth'][n], cp['session'])
-            if res['auto'] and (cp['app_bits'] & (F_TR | F_FR)):
-                continue            # the application named an owner's reason itself: the observable reasons do not say
+            t = cp['truth'][n]
+            exp = _bits(t, cp['session'])
+            # which bits can be judged here
+            mask = F_REQ
+            if cp['session']:
+                mask |= F_FR
+                if res['auto'] or cp['tr_clean']:
+                    mask |= F_TR        # free-running: the cycle requested by the change / the login has run (quiesced)
+            if (u['flags'] ^ exp) & mask:
+                flag('C15-reasons-not-mirrored',
+                     f'{where}: quiescent{" in a session" if cp["session"] else ", no session"}, '
+                     f'get_tracking_flags={u["flags"]} but the observable reasons are {exp} '
+                     f'(compared bits {mask}; {_why(n, cp)})', observed=u['flags'], required=exp)
+                continue
             if res['auto']:
                 if cp['session'] and cp['online']:
-                    if u['flags'] != exp:
-                        flag('C15-reasons-not-mirrored',
-                             f'{where}: quiescent in a session, get_tracking_flags={u["flags"]} but the observable '
-                             f'reasons are {exp} ({_why(n, cp)})', observed=u['flags'], required=exp)
-                        continue
                     if (n in cp['watch']) != (exp != 0):
                         flag('C15-wire-not-mirrored',
                              f'{where}: quiescent in a session, reasons {exp}, but the server '
@@ -723,20 +753,20 @@ def _monitor_truth(case: dict, res: dict, flag):
                         flag('C15-state-wrong',
                              f'{where}: quiescent in a session, every attempt answered "exists", state {u["state"]}, '
                              f'reasons {exp}', observed=u['state'], required='T' if exp else 'not T')
-                elif u['flags'] & ~exp:
-                    flag('C15-reasons-not-mirrored',
-                         f'{where}: no session, get_tracking_flags={u["flags"]} names a reason that does not exist '
-                         f'({_why(n, cp)})', observed=u['flags'], required=exp)
-            elif res['world'] and not (cp['app_bits'] & (F_TR | F_FR)):
-                # scripted world: TRANSFER after a cycle, FRIEND always (the application itself never names them here)
-                if cp['tr_clean'] and bool(u['flags'] & F_TR) != cp['truth'][n]['unf']:
-                    flag('C15-reasons-not-mirrored',
-                         f'{where}: quiescent after a management cycle, get_tracking_flags={u["flags"]} but '
-                         f'{_why(n, cp)}', observed=u['flags'], required=exp)
-                elif bool(u['flags'] & F_FR) != (cp['truth'][n]['fr'] and cp['session']):
-                    flag('C15-reasons-not-mirrored',
-                         f'{where}: quiescent, get_tracking_flags={u["flags"]} but {_why(n, cp)}',
-                         observed=u['flags'], required=exp)
+            elif cp['lenient']:
+                # scripted, after an owner looked without a session: the fold of requests is no reference any more —
+                # the last request made is still an AddUser iff a reason is held, and the state follows the last answer
+                c = _collapse(ep['attempts'].get(n, [])[:cp['nattempts'][n]])
+                if c.endswith('A') != (u['flags'] != 0):
+                    flag('C15-wire-not-mirrored',
+                         f'{where}: quiescent, get_tracking_flags={u["flags"]} but the requests made in this connection '
+                         f'are {c!r}', observed=c, required='ends with AddUser' if u['flags'] else 'does not')
+                    continue
+                outcomes = ep['outcomes'].get(n, [])[:cp['noutcomes'][n]]
+                last = outcomes[-1][1] if outcomes else None
+                if (u['state'] == 'T') != (u['flags'] != 0 and last == 'exists'):
+                    flag('C15-state-wrong', f'{where}: quiescent, state {u["state"]}, reasons {u["flags"]}, last answer {last}',
+                         observed=u['state'])
     if res['auto']:
         # "and never otherwise": requests alternate, and there are no more of them than the observable reasons had edges
         for ep in epochs:
@@ -747,8 +777,8 @@ def _monitor_truth(case: dict, res: dict, flag):
                          observed=c)
                 elif c.count('A') > ep['ups'][n] or c.count('R') > ep['downs'][n]:
                     flag('C15-frames-not-edges',
-                         f'user {n}: requests {c!r}, but the observable reasons became non-empty only {ep["ups"][n]} '
-                         f'time(s) and empty {ep["downs"][n]} time(s) in this connection', observed=c,
+                         f'user {n}: requests {c!r}, but in this connection an observable reason appeared only '
+                         f'{ep["ups"][n]} time(s) and disappeared {ep["downs"][n]} time(s)', observed=c,
                          required={'max_add': ep['ups'][n], 'max_remove': ep['downs'][n]})
 
 
@@ -786,8 +816,8 @@ def _monitor(case: dict, res: dict) -> list[Violation]:
                          f'a tracking task talking to the network', observed=u,
                          required={'flags': 0, 'state': 'U', 'gates': ''})
                 continue
-            if res['auto']:
-                continue            # free-running owners: judged by `_monitor_truth` only
+            if res['auto'] or cp.get('lenient'):
+                continue            # free-running owners / an owner looked without a session: `_monitor_truth` only
             # AddUser/RemoveUser exactly on the edges of R_u (retries repeat the AddUser of their edge)
             if not E.startswith(C):
                 flag('C15-frames-not-edges',
@@ -1094,8 +1124,8 @@ def _tmpl_world_cycles(rng):
     extra: dict = {}
     if rng.random() < 0.3:
         ops.append(['track', rng.randrange(2), rng.choice([1, 4, 5]), _mod(rng)])
-    if rng.random() < 0.3:
-        ops.append(['login'])
+    if rng.random() < 0.85:
+        ops.insert(rng.randrange(len(ops) + 1), ['login'])
     for _cycle in range(rng.randint(2, 5)):
         for _ in range(rng.randint(0, 2)):
             ops.append(book.change(rng))
@@ -1114,6 +1144,8 @@ def _tmpl_remove_last(rng):
     ops = [book.add(rng, u)]
     if rng.random() < 0.4:
         ops.append(book.add(rng, rng.randrange(2)))
+    if rng.random() < 0.85:
+        ops.insert(rng.randrange(len(ops) + 1), ['login'])
     if rng.random() < 0.8:
         ops += [['cycle', _mod(rng)], _good(-1), _good(-1)]
     if rng.random() < 0.4:
@@ -1136,6 +1168,9 @@ def _gen_world_random(rng):
     if rng.random() < 0.3:
         extra['friends0'] = rng.choice([[0], [1], [0, 1]])
     session = False
+    if rng.random() < 0.7:
+        ops.append(['login'])
+        session = True
     for _ in range(rng.randint(4, 16)):
         x = rng.random()
         if x < 0.22:
@@ -1277,7 +1312,7 @@ WITNESS_SWALLOW = {'ops': [['track', 0, 1, '.'], ['gate', 0, 'ok', 'exists', '.'
                            ['untrack', 0, 1, '+'], ['track', 0, 4, '!'], ['close']],
                    'kind': 'witness-swallowed-cancel'}
 # the last transfer of a user is removed: nobody withdrew the TRANSFER reason before fix 7282693
-WITNESS_REMOVE = {'ops': [['tadd', 0, 'q', '.'], ['cycle', '.'], ['gate', 0, 'ok', 'exists', '.'],
+WITNESS_REMOVE = {'ops': [['login'], ['tadd', 0, 'q', '.'], ['cycle', '.'], ['gate', 0, 'ok', 'exists', '.'],
                           ['gate', 0, 'ok', 'exists', '.'], ['trm', 0, '.'], ['gate', 0, 'ok', 'exists', '.'], ['cycle', '.']],
                   'kind': 'witness-remove-last-transfer'}
 # session loss with an unfinished download and a friend: both are asked for again, scripted and free-running
